@@ -31,7 +31,6 @@ Definition nc : bytes := bs "c".
 Example hyps_satisfiable :
   (cfg_ok cfg0 && fs_ok cfg0 fs0 && kernel_wf wld0 && names_distinct cfg0 wld0 && paths_distinct wld0
    && C02.forest_ok cfg0 fs0 && base_set_up cfg0 fs0
-   && no_stale_tmp cfg0 fs0 (CRename na nc)
    && (2 <=? length (read_layer_files cfg0 fs0))%nat) = true.
 Proof. vm_compute. reflexivity. Qed.
 Example breaking_satisfiable :
@@ -112,15 +111,23 @@ Example rebase_consumes_stale_tmp :
    C02.rebase_exact cfg0 fs_stale (wo_fs (v_after v)) nb_ [], C02.step_spec cfg0 w v)
   = (true, ROk, false, true, true).
 Proof. vm_compute. reflexivity. Qed.
-(* rename_exact has no such exemption: a stale temporary file in a child is consumed when the
-   child's layerconfig is rewritten, and rename_exact counts that as a change *)
-Example no_stale_tmp_needed :
+(* the same for rename (rename_exact exempts left-over layerconfig.tmp files since the follow-up
+   of round 2): the child's stale temporary file is consumed, rename_exact and step_spec hold *)
+Example rename_consumes_stale_tmp :
   let w := MkWO fs_stale ks0 in
   let v := view_of_model cfg0 w env_plain (CRename na nc) [] in
-  (fs_ok cfg0 fs_stale, no_stale_tmp cfg0 fs_stale (CRename na nc), v_res v,
+  (fs_ok cfg0 fs_stale, v_res v, exists_ (wo_fs (v_after v)) (bs "/lc/layers/b/layerconfig.tmp"),
    C02.forest_ok cfg0 (wo_fs (v_after v)),
    C02.rename_exact cfg0 fs_stale (wo_fs (v_after v)) na nc, C02.step_spec cfg0 w v)
-  = (true, false, ROk, true, false, false).
+  = (true, ROk, false, true, true, true).
+Proof. vm_compute. reflexivity. Qed.
+(* also when the stale file sits in the renamed layer itself *)
+Definition fs_stale_a : fsT := fs0 ++ [(bs "/lc/layers/a/layerconfig.tmp", File (bs "old"))].
+Example rename_consumes_own_stale_tmp :
+  let w := MkWO fs_stale_a ks0 in
+  let v := view_of_model cfg0 w env_plain (CRename na nc) [] in
+  (fs_ok cfg0 fs_stale_a, v_res v, C02.rename_exact cfg0 fs_stale_a (wo_fs (v_after v)) na nc, C02.step_spec cfg0 w v)
+  = (true, ROk, true, true).
 Proof. vm_compute. reflexivity. Qed.
 
 (* a name longer than NAME_MAX is a legal layer name; mkdir refuses it, nothing changes *)
@@ -155,17 +162,7 @@ Proof.
   split; vm_compute; reflexivity.
 Qed.
 
-Lemma rename_exact_refuted : exists cfg w e a b0,
-  (cfg_ok cfg && fs_ok cfg (wo_fs w) && paths_distinct w && kernel_wf w && names_distinct cfg w
-   && C02.forest_ok cfg (wo_fs w)) = true /\
-  e_pretend e = false /\ e_fault e = NoFault /\
-  v_res (view_of_model cfg w e (CRename a b0) []) = ROk /\
-  C02.rename_exact cfg (wo_fs w) (wo_fs (v_after (view_of_model cfg w e (CRename a b0) []))) a b0 = false.
-Proof.
-  exists cfg0, (MkWO fs_stale ks0), env_plain, na, nc.
-  split; [vm_compute; reflexivity|]. split; [reflexivity|]. split; [reflexivity|].
-  split; vm_compute; reflexivity.
-Qed.
+
 
 
 (* the whole of step_spec evaluates to true on the example world for successful structural steps *)
